@@ -12,6 +12,10 @@ type sem struct {
 	kind  string // "upd" | "tick"
 	log   Log
 	fin   uint64
+	// geth family: the finalised height the L1 node answered (the oracle's truth; fin is what
+	// the geth layer handed to the client)
+	nodeFin    uint64
+	hasNodeFin bool
 	after *HeadJ // stored head observed after the tick completed
 	note  *HeadJ // listener notification caused by this tick (nil: none)
 	notes int    // number of notifications caused by this tick
@@ -126,7 +130,7 @@ func linearise(c *Case, o *Observed, guard bool) *analysis {
 					note = &o.Notes[n1-1]
 				}
 				emitCatchup("complete", m.Fin, afterHead(i), note)
-				a.sems = append(a.sems, sem{kind: "tick", fin: m.Fin, after: afterHead(i), note: note, notes: n1 - n0, src: "catchup"})
+				a.sems = append(a.sems, sem{kind: "tick", fin: m.Fin, nodeFin: m.NodeFin, hasNodeFin: m.HasNodeFin, after: afterHead(i), note: note, notes: n1 - n0, src: "catchup"})
 			}
 			continue
 		}
@@ -158,7 +162,7 @@ func linearise(c *Case, o *Observed, guard bool) *analysis {
 			h := afterHead(i)
 			a.steps = append(a.steps, modelStep{line: fmt.Sprintf("tick %x", m.Fin),
 				expect: fmt.Sprintf("head=%s note=%s", h.String(), note.String()), what: "poll"})
-			a.sems = append(a.sems, sem{kind: "tick", fin: m.Fin, after: h, note: note, notes: n1 - n0, src: "live"})
+			a.sems = append(a.sems, sem{kind: "tick", fin: m.Fin, nodeFin: m.NodeFin, hasNodeFin: m.HasNodeFin, after: h, note: note, notes: n1 - n0, src: "live"})
 		case "finerr":
 			a.steps = append(a.steps, modelStep{line: "finerr"})
 		case "watch", "watchfail":
